@@ -33,7 +33,7 @@ CHECKS = {
         "Average correlation: c02_avg_corr_is_mean_of_own_votes / c02_aggregated_votes_exact / c02_aggregated_corr_exact (what the tally loop of tally_votes, the column sums of "
         "aggregate_votes and the quotient of choose_node leave for a reference type is the sum of the winning correlations of exactly the iterations whose nearest leaf it owns, over their "
         "number (or 1), for every number of iterations / leaves / types and every winner sequence) and c02_tally_order_irrelevant; tied by choose_node runs whose real per-iteration neighbours and "
-        "correlations are recorded (correlations rounded to multiples of 2^-20 so that binary64 sums are exact): votes, probability and average correlation of the winner and every runner-up slot compared for equality (tag 203).",
+        "correlations are recorded (correlations rounded to multiples of 2^-20 so that binary64 sums are exact): votes, probability and average correlation of the winner and every runner-up slot compared for equality (tag 203). c02_tally_array_refines_votes_for: the array built by the tally loop and aggregate_votes is the abstract vote function votes_for of the plurality theorems.",
    note="Float rounding inside np.dot/np.mean is not modelled (decisions compared, near ties with relative margin <= 1e-9 skipped and counted); "
         "rng.choice itself is not modelled (the recorded draws are checked to be duplicate-free and of the right size); dyadic bootstrap factors.",
    technique=TECH, ref="DESIGN.md section 7 C02"),
@@ -45,7 +45,8 @@ CHECKS = {
         "c03_corr_range (-1 <= r <= 1 by Cauchy-Schwarz over exact integers), and at the level of run_type_assignment for every decision procedure and valid "
         "taxonomy: c03_aggregate_is_running_product and c03_single_child (a level below a single-child parent carries that child, probability 1, no runners-up and "
         "the correlation of the level above; 1 at a single top node), c03_avg_corr_range (the reported AVERAGE correlation of the winner and of every runner-up, corr_sum / where(votes>0, votes, 1), "
-        "has |numerator| <= denominator whenever each per-iteration correlation lies in [-1,1]; a type without votes gets 0). Tie: every record of real run_mapping runs (iteration count 1, zero runners-up, more runners-up "
+        "has |numerator| <= denominator whenever each per-iteration correlation lies in [-1,1]; a type without votes gets 0), c03_reported_avg_corr_ok and c03_filled_corr_in_range (after the two trailing passes of run_type_assignment - inheritance from the level above, 1.0 at the top, running product - "
+        "EVERY level of every row, voted, single-child or inherited over any number of levels, carries a correlation fraction in [-1,1] whenever the voted ones are). Tie: every record of real run_mapping runs (iteration count 1, zero runners-up, more runners-up "
         "than siblings, single-child chains, flatten / dropped levels) checked against the contract through the extracted check_choice on recomputed votes.",
    note="The [-1,1] clause is checked on the implementation with a 1e-9 allowance (real outputs contain 1.0000000000000002), the model proves it "
         "exactly; aggregate probability compared with the float running product within 1e-12.",
